@@ -388,6 +388,42 @@ def bounded(tier, seed):
             cid = 'C05:handles:' + ','.join(hist)
             # class of the history (for known-finding matching): kinds of steps only
             run.case('C05:handles:close/drop/gc never invalidates another open file', hist, t_hist)
+        # queries on a DISK-BACKED receiver with packed variables (scale_factor / add_offset) and a fill value: save / dump / time decoding
+        # leave what the receiver presents unchanged (values, dtype, mask), the netCDF4 modes of its variables included
+        import netCDF4
+        pk = os.path.join(d, 'packed.nc')
+        ds = netCDF4.Dataset(pk, 'w', format='NETCDF4_CLASSIC')
+        ds.createDimension('time', 3)
+        ds.createDimension('x', 4)
+        tv = ds.createVariable('time', 'd', ('time',))
+        tv.units = 'hours since 2020-01-01 00:00:00'
+        tv[:] = [0, 1, 2]
+        pv = ds.createVariable('T', 'i2', ('time', 'x'), fill_value=-32768)
+        pv.scale_factor, pv.add_offset, pv.units = np.float32(0.01), np.float32(273.15), 'K'
+        pv[:] = np.ma.masked_array(np.arange(12.).reshape(3, 4) * 1.5 + 260., mask=[[0, 0, 1, 0]] * 3)
+        ds.close()
+        for how in ('save NETCDF4_CLASSIC', 'save NETCDF3_CLASSIC', 'getTimes', 'repr'):
+            def t_q(how=how):
+                from PseudoNetCDF import pncopen
+                f = pncopen(pk, format='netcdf')
+                try:
+                    before = {k: np.ma.asarray(f.variables[k][...]).copy() for k in ('time', 'T')}
+                    if how.startswith('save'):
+                        f.save(os.path.join(d, 'packed_out_%s.nc' % how.split()[1]), format=how.split()[1], verbose=0).close()
+                    elif how == 'getTimes':
+                        f.getTimes()
+                    else:
+                        repr(f)
+                    for k, a in before.items():
+                        b = np.ma.asarray(f.variables[k][...])
+                        if b.dtype != a.dtype:
+                            return 'after %s the receiver presents %s as %s, before as %s' % (how, k, b.dtype, a.dtype)
+                        if not np.array_equal(np.ma.getmaskarray(a), np.ma.getmaskarray(b)) or not np.allclose(a.filled(0), b.filled(0)):
+                            return 'after %s the values / mask the receiver presents for %s changed (%r -> %r)' % (how, k, a.ravel()[:3].tolist(), b.ravel()[:3].tolist())
+                finally:
+                    f.close()
+                return None
+            run.case('C05:query on a disk-backed file with packed variables leaves it unchanged', how, t_q)
     finally:
         shutil.rmtree(d, ignore_errors=True)
     return run.result(
